@@ -22,18 +22,18 @@ def harness_doc(pid, name):
 PROPS["C09"] = dict(
     prefix="c09_",
     overlays=[("layer", "vk_c09.rs")],
-    rotate=["c09_t_parents_n8", "c09_t_visible_n6"],
-    bounds="quick: 4 layers; thorough: 8 layers (parents) / 6 layers (visibility); child levels and flag words are "
+    bounds="parents: 4, 6 and 8 layers (quick); visibility: 4 and 6 layers (quick), 8 and 10 layers (thorough); parents additionally 12 layers (thorough); child levels and flag words are "
            "arbitrary u16 under the format's forest precondition (first level 0, each level <= predecessor+1)",
     outside="more than 8 layers; stack depth of the recursive ancestor walk for very deep nesting",
     docs={
         "c09_q_parents_n4": "levels:[u16;4] symbolic, forest assumed; LayersData::from_vec -> compute_parents; "
                             "asserts parent(i) = max{j<i: level j < level i}, None at level 0, parent < i",
         "c09_q_parents_n6": "as n4 with 6 layers",
-        "c09_t_parents_n8": "as n4 with 8 layers (the property's exhaustive bound, decided symbolically)",
+        "c09_q_parents_n8": "as n4 with 8 layers (the property's exhaustive bound, decided symbolically)",
         "c09_q_visible_n4": "levels, flag words:[u16;4] symbolic; sprite constructed directly; symbolic layer index; "
                             "Layer::is_visible == own VISIBLE bit && spec-visibility of spec-parent; Layer::parent agrees",
-        "c09_t_visible_n6": "as visible_n4 with 6 layers",
+        "c09_q_visible_n6": "as visible_n4 with 6 layers",
+        "c09_t_visible_n8": "as visible_n4 with 8 layers",
     },
     explanation="compute_parents / Layer::parent / Layer::is_visible executed symbolically from the compiled MIR; "
                 "the contribution of hidden layers to Frame::image is decided under C02 (c02_*_frame_fold)",
@@ -42,7 +42,8 @@ PROPS["C09"] = dict(
 
 PROPS["C03"] = dict(
     prefix="c03_",
-    overlays=[("blend", "vk_ref.rs"), ("blend", "vk_c03.rs")],
+    overlays=[("blend", "vk_ref.rs"), ("blend", "vk_c03.rs"), ("file", "vk_c02.rs")],
+    extra_harnesses=dict(quick=["c02_q_raw_cel_2x2_2x1"], thorough=[]),
     pregen=[("softlight_table.py", "src/blend/vk_softtab.rs")],
     rotate=["c03_t_soft_rows_%03d" % (8 * k) for k in range(32)],
     per_harness={
@@ -54,7 +55,9 @@ PROPS["C03"] = dict(
     timeout_quick=900, timeout_thorough=2400,
     bounds="every integer harness ranges over the function's complete input domain (u8^2 for channel kernels, "
            "2^72 for normal/merge/mode(b,s,o)); no loop bound is involved",
-    outside="HSL modes off the stated colour lattice; the variant->function dispatch table (Kani cannot compile it)",
+    outside="the float helpers luminosity / set_saturation / set_luminocity of the four HSL modes (only the structure around them and "
+            "`saturation` are decided); the variant->function dispatch table (Kani cannot compile it); 'through the public rendering API' is "
+            "the rasteriser unit (pixel handed to the blend function, opacity product) plus the per-function results",
 )
 
 
@@ -234,7 +237,8 @@ PROPS["C14"] = dict(
 PROPS["C19"] = dict(
     prefix="c19_",
     overlays=[("file", "vk_c02.rs"), ("file", "vk_c19.rs")],
-    per_harness={r"c19_q_single_cel_frame_equals_cel_image": dict(mem_gb=12, recursion={r"file::AsepriteFile::write_cel": 2}, timeout=1500)},
+    extra_harnesses=dict(quick=["c02_q_frame_gate_l3"], thorough=["c02_t_frame_gate_l4"]),
+    per_harness={r"c02_._frame_gate_.*": dict(mem_gb=8, timeout=1500), r"c19_q_single_cel_frame_equals_cel_image": dict(mem_gb=12, recursion={r"file::AsepriteFile::write_cel": 2}, timeout=1500)},
     bounds="2 frames x 3 layers with 4 raw cels at symbolic offsets, symbolic (frame, layer) in range; single-visible-cel frame on "
            "a 1x1 canvas with a second, hidden layer that also has a cel",
     outside="Tilemap::image == cel image (one-line delegation, not encoded), larger sprites",
@@ -298,11 +302,16 @@ VERIF_DIR = _os.path.dirname(_os.path.dirname(_os.path.abspath(__file__)))
 
 PROPS["C16"] = dict(
     prefix="c16_",
-    overlays=[("file", "vk_c02.rs"), ("file", "vk_c16.rs"), ("parse", "vk_c16p.rs")],
+    overlays=[("file", "vk_c02.rs"), ("file", "vk_c16.rs"), ("parse", "vk_c16p.rs"), ("file", "vk_c08.rs"), ("palette", "vk_c11.rs")],
+    extra_harnesses=dict(quick=["c08_q_tilemap_size_in_tiles_fixed_tiles", "c08_q_tilemap_geometry_and_lookup", "c11_q_legacy_04_skip_200_100",
+                                "c02_q_raw_cel_2x2_2x1"],
+                         thorough=["c08_t_tilemap_size_in_tiles"]),
     post=_c16_send_sync,
-    per_harness={r"c16_q_accessors_repeatable": dict(mem_gb=12, recursion={r"file::AsepriteFile::write_cel": 2}, timeout=1500)},
+    per_harness={r"c16_q_accessors_repeatable": dict(mem_gb=12, recursion={r"file::AsepriteFile::write_cel": 2}, timeout=1500),
+                 r"c08_t_tilemap_size_in_tiles": dict(timeout=2400)},
     bounds="2-layer (group + image) 1x1 sprite with symbolic flags / opacities / modes / pixel: accessors called repeatedly and "
-           "interleaved; one layer chunk with symbolic bytes parsed twice; Send + Sync by the type checker",
+           "interleaved; one layer chunk with symbolic bytes parsed twice; Send + Sync by the type checker; 'no result depends on wrapping "
+           "arithmetic' = no reachable overflow check in the re-run rasteriser, tilemap geometry and legacy palette harnesses",
     outside="thread interleavings (not decidable with the installed solver-based tools: Kani does not model threads); the claim for "
             "concurrency rests on &self-only accessors + the Send/Sync probe; dev-vs-release agreement rests on no overflow check "
             "being reachable in the C02/C05/C06/C08 harnesses",
